@@ -20,7 +20,7 @@
 (*   keys[i]     1 or 2 zone keys; both sign every RRset of the zone; the   *)
 (*               DS / the trust anchor is for the first key only;           *)
 (*   anchors     zones whose first key is a configured trust anchor.        *)
-(* QUERY  q in {"pos", "nodata", "nx"}, always for a name of zone n.        *)
+(* QUERY  q in QueryKinds (see there), always for a name of zone n.         *)
 (* RESPONSES the validator may fetch: <<"ANS",0>> (the answer),             *)
 (*   <<"KEY",z>> (DNSKEY of zone z), <<"DS",z>> (DS at the cut of zone z,   *)
 (*   answered by zone z-1), <<"NS",z>> (unauthenticated NS look-ups used    *)
@@ -46,15 +46,23 @@
 (*   query name in the NS response).                                        *)
 EXTENDS Naturals, Sequences, FiniteSets
 
-LinkKinds == {"ds", "nods", "dsunsup", "dsphantom"}
-QueryKinds == {"pos", "nodata", "nx"}
+LinkKinds == {"ds", "dsmixed", "nods", "dsunsup", "dsphantom"}
+\* the DS RRset holds a record of a supported algorithm and digest type that matches a child key
+\* ("dsmixed": followed by records of unsupported algorithm / digest type; RFC 4035 5.2 treats the
+\* child as unsigned only if *no* DS record is usable, in whatever order the records arrive)
+SecureLinks == {"ds", "dsmixed"}
+\* "cname": the name is an alias whose target (one label deeper, next to a wildcard) is in the same
+\* zone, answered with the CNAME RRset ("cname") and the target's RRset ("data");
+\* "wild": the name is matched by a wildcard only, answered with the expanded RRset ("data") and the
+\* NSEC that proves that no closer match exists ("nsecq", RFC 4035 5.3.4)
+QueryKinds == {"pos", "nodata", "nx", "cname", "wild"}
 
 ValidWorld(w) ==
     /\ w.n >= 1 /\ Len(w.signed) = w.n /\ Len(w.link) = w.n /\ Len(w.keys) = w.n
     /\ w.link[1] = "none" /\ w.signed[1] /\ 1 \in w.anchors
     /\ \A i \in 1..w.n : w.keys[i] \in 1..2
     /\ \A i \in 2..w.n : /\ w.link[i] \in LinkKinds
-                         /\ (w.link[i] = "ds" => w.signed[i])
+                         /\ (w.link[i] \in SecureLinks => w.signed[i])
                          /\ (~w.signed[i - 1] => w.link[i] = "nods")
     /\ \A a \in w.anchors : a \in 1..w.n /\ w.signed[a]
 
@@ -66,6 +74,8 @@ ZoneOfResp(w, resp, z) == IF resp = "ANS" THEN w.n ELSE IF resp = "DS" THEN z - 
 
 AnsItems(w, q) ==
     IF q = "pos" THEN {"data"}
+    ELSE IF q = "cname" THEN {"cname", "data"}
+    ELSE IF q = "wild" THEN (IF w.signed[w.n] THEN {"data", "nsecq"} ELSE {"data"})
     ELSE IF ~w.signed[w.n] THEN {"soa"}
     ELSE IF q = "nodata" THEN {"soa", "nsecq"} ELSE {"soa", "nsecq", "nsecw"}
 KeyItems(w, z) == IF w.signed[z] THEN {"dnskey"} ELSE {"soa"}
@@ -74,13 +84,31 @@ DsItems(w, z) ==
 
 \* the NSEC records without which the denial of the query is not proven (RFC 4035 5.4)
 Needed(q) == IF q = "nodata" THEN {"nsecq"} ELSE IF q = "nx" THEN {"nsecq", "nsecw"} ELSE {}
+\* the NSEC records without which an RRset of a positive answer is not authenticated: a
+\* wildcard-expanded RRset needs the proof that no closer match exists (RFC 4035 5.3.4)
+ProofOf(q, item) == IF q = "wild" /\ item = "data" THEN {"nsecq"} ELSE {}
 
 \* -------------------------------------------------------------------------
 \* what is delivered under a set of faults
 
 SigOps     == {"dropSig", "dropSig1", "dropSig2", "sigBit"}
-ContentOps == {"alter", "addRec", "forge", "forgeEvil", "forgeIsland", "swapKey"}
+ContentOps == {"alter", "addRec", "forge", "forgeEvil", "forgeIsland", "swapKey", "wildSub"}
 WholeOps   == {"dropMsg", "childSide"}
+\* further operations:
+\*   wildSub    (target RRset of a "cname" answer) replaced by the wildcard's RRset and genuine
+\*              wildcard RRSIG with the owner renamed to the target, no NSEC added;
+\*   reorder    the records of the RRset are delivered in the opposite order: the order of records
+\*              inside an RRset is not signed, the item stays what it is;
+\*   foreignDs  a scripted attack on several responses at once: the DS response of zone z gets, next
+\*              to the genuine DS RRset, a DS RRset owned by a name of the unrelated insecure zone
+\*              island. whose digest is of an attacker key for zone z, signed with a made-up key of
+\*              island. that the (replaced) DNSKEY response of island. publishes; the DNSKEY RRset of
+\*              zone z is replaced by the attacker key and the answer is signed with it.  In terms
+\*              of items: the DS item is untouched, the DNSKEY of z and the data are not the zone's.
+Expand(w, F) ==
+    F \cup UNION {{[resp |-> "KEY", z |-> f.z, item |-> "dnskey", op |-> "swapKey"]}
+                  \cup (IF f.z = w.n THEN {[resp |-> "ANS", z |-> 0, item |-> "data", op |-> "forge"]} ELSE {})
+                  : f \in {g \in F : g.op = "foreignDs"}}
 
 \* the keys whose signature authenticates the item: for the apex DNSKEY RRset only a key
 \* that the DS (the trust anchor) vouches for (RFC 4035 5.2, 5.3.1), otherwise any zone key
@@ -91,7 +119,7 @@ UsefulSigners(w, zone, item) == IF item = "dnskey" THEN {1} ELSE 1..w.keys[zone]
 \* "altered": the records are not the zone's;   "absent": the RRset was not delivered
 ItemState(w, F, resp, z, item) ==
     LET zone  == ZoneOfResp(w, resp, z)
-        fs    == {f \in F : f.resp = resp /\ f.z = z}
+        fs    == {f \in Expand(w, F) : f.resp = resp /\ f.z = z}
         ops   == {f.op : f \in {g \in fs : g.item = item}}
         whole == {f.op : f \in fs} \cap WholeOps
         lost  == IF ops \cap {"dropSig", "sigBit"} # {} THEN {1, 2}
@@ -115,7 +143,7 @@ AnchorKeysOk(w, F, a) ==
 \* the link parent -> zone j: the authenticated DS RRset holds a digest of a key of the child's
 \* authenticated-by-that-key DNSKEY RRset
 LinkOk(w, F, j) ==
-    /\ w.signed[j] /\ w.link[j] = "ds"
+    /\ w.signed[j] /\ w.link[j] \in SecureLinks
     /\ ItemState(w, F, "DS", j, "ds") = "genuine"
     /\ ItemState(w, F, "KEY", j, "dnskey") = "genuine"
 
@@ -142,14 +170,15 @@ InsecureOk(w, F, i) == \E c \in 2..i : ProvenInsecureCut(w, F, c)
 \* requirements on what the validator hands back for a query in zone n
 
 \* an RRset of the final response may be marked Secure
-SecureOk(w, F, item) ==
+SecureOk(w, F, q, item) ==
     /\ item # "inj" /\ w.signed[w.n]
     /\ ItemState(w, F, "ANS", 0, item) = "genuine"
+    /\ \A x \in ProofOf(q, item) : ItemState(w, F, "ANS", 0, x) = "genuine"
     /\ Intact(w, F, w.n)
 
 \* a negative answer may be handed back as authenticated (all of its records Secure)
 NegSecureOk(w, F, q) ==
-    /\ q # "pos" /\ w.signed[w.n] /\ Intact(w, F, w.n)
+    /\ q \in {"nodata", "nx"} /\ w.signed[w.n] /\ Intact(w, F, w.n)
     /\ \A x \in Needed(q) : ItemState(w, F, "ANS", 0, x) = "genuine"
 
 \* the un-faulted world: what a complete validator reports (used for witnesses only)
@@ -157,9 +186,9 @@ Best(w) == IF w.signed[w.n] /\ Intact(w, {}, w.n) THEN "Secure"
            ELSE IF InsecureOk(w, {}, w.n) THEN "Insecure" ELSE "Bogus"
 
 \* per item of the final response and per response: is Secure / Insecure allowed
-ItemNames == {"data", "inj", "soa", "nsecq", "nsecw"}
+ItemNames == {"data", "cname", "inj", "soa", "nsecq", "nsecw"}
 Allow(w, F, q) ==
-    [x \in ItemNames |-> [sec |-> SecureOk(w, F, x), ins |-> InsecureOk(w, F, w.n)]]
+    [x \in ItemNames |-> [sec |-> SecureOk(w, F, q, x), ins |-> InsecureOk(w, F, w.n)]]
 
 \* an observation: obs = sequence of [x |-> item name, k |-> "rr" | "sig", p |-> proof] (one entry
 \* per distinct proof seen on the records / RRSIGs of an item of the final response) and the
@@ -174,7 +203,7 @@ Allow(w, F, q) ==
 \* Bogus, Indeterminate and errors are always allowed: both clauses of the property are "only if".
 ObservationOk(w, F, q, obs, class) ==
     /\ \A k \in 1..Len(obs) :
-          /\ (obs[k].p = "Secure" => obs[k].x \in ItemNames /\ SecureOk(w, F, obs[k].x))
+          /\ (obs[k].p = "Secure" => obs[k].x \in ItemNames /\ SecureOk(w, F, q, obs[k].x))
           /\ (obs[k].p = "Insecure" => InsecureOk(w, F, w.n))
     /\ (class = "neg-secure" => NegSecureOk(w, F, q))
     /\ (class \in {"neg-insecure", "err-insecure"} => InsecureOk(w, F, w.n))
@@ -190,19 +219,19 @@ ObservationOk(w, F, q, obs, class) ==
 ServedOk(w, F, q, cd, rcode, ad, ans) ==
     LET ok == rcode \in {"NOERROR", "NXDOMAIN"} IN
     /\ ad => /\ ok
-             /\ IF Len(ans) > 0 THEN \A k \in 1..Len(ans) : ans[k] \in ItemNames /\ SecureOk(w, F, ans[k])
+             /\ IF Len(ans) > 0 THEN \A k \in 1..Len(ans) : ans[k] \in ItemNames /\ SecureOk(w, F, q, ans[k])
                 ELSE NegSecureOk(w, F, q)
     /\ (ok /\ ~cd) =>
              IF Len(ans) > 0
-             THEN \A k \in 1..Len(ans) : ans[k] \in ItemNames /\ (SecureOk(w, F, ans[k]) \/ InsecureOk(w, F, w.n))
+             THEN \A k \in 1..Len(ans) : ans[k] \in ItemNames /\ (SecureOk(w, F, q, ans[k]) \/ InsecureOk(w, F, w.n))
              ELSE NegSecureOk(w, F, q) \/ InsecureOk(w, F, w.n)
 
 \* diagnosis for reports (never used to judge): what the un-faulted world allows, and which
 \* single faults of F each forbid it on their own
 Diagnosis(w, F, q) ==
-    [base  |-> [sec |-> [x \in ItemNames |-> SecureOk(w, {}, x)], ins |-> InsecureOk(w, {}, w.n),
+    [base  |-> [sec |-> [x \in ItemNames |-> SecureOk(w, {}, q, x)], ins |-> InsecureOk(w, {}, w.n),
                 neg |-> NegSecureOk(w, {}, q)],
-     blame |-> [sec |-> [x \in ItemNames |-> {f \in F : ~SecureOk(w, {f}, x)}],
+     blame |-> [sec |-> [x \in ItemNames |-> {f \in F : ~SecureOk(w, {f}, q, x)}],
                 ins |-> {f \in F : ~InsecureOk(w, {f}, w.n)},
                 neg |-> {f \in F : ~NegSecureOk(w, {f}, q)}]]
 
@@ -218,6 +247,12 @@ AnsFaults(w, q) ==
      ELSE IF q = "pos"
      THEN {Flt("ANS", 0, "data", op) : op \in {"dropSig", "sigBit", "alter", "addRec", "forge", "forgeEvil", "forgeIsland", "dropSet"}
                                               \cup TwoKeyOps(w, w.n)}
+     ELSE IF q = "cname"
+     \* (the target RRset is not dropped: a resolver would simply ask for it again)
+     THEN {Flt("ANS", 0, "data", op) : op \in {"dropSig", "sigBit", "alter", "forge", "wildSub"} \cup TwoKeyOps(w, w.n)}
+          \cup {Flt("ANS", 0, "cname", op) : op \in {"dropSig", "alter", "forge", "dropSet"}}
+     ELSE IF q = "wild"
+     THEN {Flt("ANS", 0, x, op) : x \in {"data", "nsecq"}, op \in {"dropSig", "alter", "forge", "dropSet"} \cup TwoKeyOps(w, w.n)}
      ELSE {Flt("ANS", 0, x, op) : x \in AnsItems(w, q) \ {"soa"},
                                   op \in {"dropSig", "alter", "forge", "forgeEvil", "forgeIsland", "dropSet"} \cup TwoKeyOps(w, w.n)}
           \cup {Flt("ANS", 0, "soa", op) : op \in {"dropSig", "alter", "dropSet"}})
@@ -227,9 +262,11 @@ KeyFaults(w) ==
     UNION {{Flt("KEY", z, "dnskey", op) : op \in {"dropSig", "sigBit", "alter", "addRec", "swapKey", "dropSet"} \cup TwoKeyOps(w, z)}
            \cup {Flt("KEY", z, "msg", "dropMsg")} : z \in {i \in 1..w.n : w.signed[i]}}
 
-DsFaults(w) ==
+DsFaults(w, q) ==
     UNION {(IF "ds" \in DsItems(w, z)
             THEN {Flt("DS", z, "ds", op) : op \in {"dropSig", "sigBit", "alter", "addRec", "forge", "forgeEvil", "dropSet"} \cup TwoKeyOps(w, z - 1)}
+                 \cup (IF w.link[z] \in {"dsmixed", "dsunsup"} THEN {Flt("DS", z, "ds", "reorder")} ELSE {})
+                 \cup (IF z = w.n /\ w.signed[z] /\ q = "pos" THEN {Flt("DS", z, "ds", "foreignDs")} ELSE {})
                  \cup (IF w.signed[z] THEN {Flt("DS", z, "msg", "childSide")} ELSE {})
             ELSE {Flt("DS", z, "nsecds", op) : op \in {"dropSig", "alter", "forge", "forgeEvil", "dropSet"} \cup TwoKeyOps(w, z - 1)}
                  \cup {Flt("DS", z, "soa", op) : op \in {"dropSig", "dropSet"}})
@@ -237,5 +274,5 @@ DsFaults(w) ==
 
 NsFaults(w) == {Flt("NS", 0, "ns", "inject")} \cup {Flt("NS", z, "ns", "dropSet") : z \in 2..w.n}
 
-ApplicableFaults(w, q) == AnsFaults(w, q) \cup KeyFaults(w) \cup DsFaults(w) \cup NsFaults(w)
+ApplicableFaults(w, q) == AnsFaults(w, q) \cup KeyFaults(w) \cup DsFaults(w, q) \cup NsFaults(w)
 =============================================================================
